@@ -332,12 +332,6 @@ Fixpoint multiset_eqb (a b : list (path * leaf)) : bool :=
     field's name had to be suffixed with underscores (a clash with another member of the struct),
     the label differs from the fragment's own name by those underscores only.  The oracle compares
     leaves modulo trailing underscores of fragment labels. *)
-Fixpoint strip_us_rev (r : bytes) : bytes :=
-  match r with
-  | c :: r' => if (c =? 95)%N then strip_us_rev r' else r
-  | [] => []
-  end.
-Definition strip_us (l : bytes) : bytes := rev (strip_us_rev (rev l)).
 Definition norm_step (s : pstep) : pstep := match s with PFrag f => PFrag (strip_us f) | _ => s end.
 Definition norm_leaves (l : list (path * leaf)) : list (path * leaf) := map (fun pl => (map norm_step (fst pl), snd pl)) l.
 
